@@ -359,7 +359,129 @@ pub fn meta() -> CheckMeta {
         level: "exploration",
         rule: "case = (interval, timeout) from the grid {1,2,5,10,30,60,300} s squared (quick: {1,5,30,60}), RTT in {0, 0.1, 0.5, 0.99} x timeout realised as a one-way delay on both directions, stream traffic {none, light both ways, client floods a 64 KiB outbound pipe}, and the peer healthy for 50 intervals or both directions going dead before the first request / between a request and its response / right after an answer / mid-interval / just before the second request. Real client Session (SessionHeartbeatConfig) against a real server Session under virtual time. Oracle: healthy => never closed and >= 40 keep-alive exchanges observed on the recorded pipes; silent => closed, blocked reader released and pending open failed by (time the last response was delivered, read from the pipe log) + timeout + interval + 1 ms. Every grid point is a distinct non-trivial case.".into(),
         assumptions: vec!["'dead' is modelled as a black hole in both directions (nothing delivered, nothing drained)".into(), "intervals/timeouts of 0 are excluded (tokio::time::interval panics on a zero period: configuration, not peer behaviour)".into()],
-        floors: vec![("healthy_peer_cases", 40), ("silent_peer_cases", 100), ("keepalive_responses_delivered", 2000), ("dead_sessions_seen_closing", 20)],
+        floors: vec![("healthy_peer_cases", 40), ("silent_peer_cases", 100), ("keepalive_responses_delivered", 2000), ("dead_sessions_seen_closing", 20), ("client_level_sessions_watched", 3)],
         exhaustive: false,
     }
+}
+
+// ---------------------------------------------------------------------------
+// client level: sessions made by the real `Client` (which derives the monitor's interval and timeout from its
+// pool configuration) behind a relay that can fall silent. Real time, small values; verdicts are generous.
+
+async fn client_level_case(interval_ms: u64, timeout_ms: u64, scale: u64) -> Result<(Option<String>, Option<String>), String> {
+    use crate::engine;
+    use crate::netkit::{self, Target};
+    use bytes::Bytes;
+    use std::sync::atomic::Ordering;
+    let (interval_ms, timeout_ms) = (interval_ms * scale, timeout_ms * scale);
+    let (server_addr, sh) = netkit::start_server(netkit::PASSWORD, engine::default_padding()).await.ok_or("cannot start server")?;
+    let relay = netkit::start_rec_relay(server_addr).await.ok_or("cannot start relay")?;
+    let mut t = Target::bind_v4(0).await.ok_or("cannot bind target")?;
+    let tport = t.port;
+    let echo = tokio::spawn(async move {
+        while let Some(a) = t.rx.recv().await {
+            netkit::spawn_echo(a.stream);
+        }
+    });
+    // Client: keep-alive interval = check_interval, keep-alive timeout = idle_timeout. The session under watch
+    // carries a stream the whole time, so pool housekeeping (which uses the same numbers) has no say over it.
+    let client = netkit::make_client(&relay.addr, netkit::PASSWORD, engine::default_padding(), anytls_rs::client::SessionPoolConfig { check_interval: Duration::from_millis(interval_ms), idle_timeout: Duration::from_millis(timeout_ms), min_idle_sessions: 0 });
+    let r = async {
+        let (stream, session) = tokio::time::timeout(Duration::from_secs(20), client.create_proxy_stream(("127.0.0.1".to_string(), tport))).await.map_err(|_| "open timeout".to_string())?.map_err(|e| format!("open failed: {e}"))?;
+        // healthy phase: 6 x max(interval, timeout), a ping now and then
+        let healthy_for = Duration::from_millis(6 * interval_ms.max(timeout_ms));
+        let t0 = tokio::time::Instant::now();
+        let mut healthy_problem = None;
+        let mut k = 0u32;
+        while t0.elapsed() < healthy_for {
+            k += 1;
+            let msg = format!("ping-{k}");
+            let ok = async {
+                session.write_data_frame(stream.id(), Bytes::from(msg.clone())).await.ok()?;
+                let mut buf = vec![0u8; msg.len()];
+                tokio::time::timeout(Duration::from_secs(5), async { stream.reader().lock().await.read_exact(&mut buf).await }).await.ok()?.ok()?;
+                Some(buf == msg.as_bytes())
+            }
+            .await;
+            if session.is_closed() || ok != Some(true) {
+                healthy_problem = Some(format!("after {} ms of a healthy connection (every keep-alive answered over loopback) the session is closed={} and ping #{k} worked={:?}", t0.elapsed().as_millis(), session.is_closed(), ok));
+                break;
+            }
+            tokio::time::sleep(Duration::from_millis(interval_ms.min(timeout_ms) / 2)).await;
+        }
+        if healthy_problem.is_some() {
+            return Ok((healthy_problem, None));
+        }
+        // dead phase: the path falls silent in both directions, the connection stays open
+        relay.hold.store(true, Ordering::SeqCst);
+        let t1 = tokio::time::Instant::now();
+        let bound = Duration::from_millis(2 * (interval_ms + timeout_ms) + 2000);
+        let st2 = stream.clone();
+        let reader = tokio::spawn(async move {
+            let mut b = [0u8; 8];
+            let _ = st2.reader().lock().await.read(&mut b).await;
+            tokio::time::Instant::now()
+        });
+        let released = tokio::time::timeout(bound, reader).await;
+        let dead_problem = match released {
+            Ok(Ok(at)) if session.is_closed() => {
+                let _ = at;
+                None
+            }
+            Ok(_) => Some(format!("the blocked reader returned but the session is not closed {} ms after the path fell silent", t1.elapsed().as_millis())),
+            Err(_) => Some(format!("{} ms after the path fell silent (interval {interval_ms} ms + timeout {timeout_ms} ms allow {} ms) the session is closed={} and a reader blocked on its stream has not been released", t1.elapsed().as_millis(), interval_ms + timeout_ms, session.is_closed())),
+        };
+        Ok((None, dead_problem))
+    }
+    .await;
+    relay.hold.store(false, Ordering::SeqCst);
+    client.stop_session_pool_cleanup().await;
+    sh.abort();
+    echo.abort();
+    r
+}
+
+pub fn run_client_level(ctx: Ctx) -> Report {
+    let quick = ctx.tier == crate::report::Tier::Quick;
+    run::case_begin("C14 client level");
+    let mut rep = run::rt_block_on(8, async move {
+        let mut rep = Report::new("C14");
+        // (interval, timeout) in ms: timeout above, equal to and below the interval
+        let grid: Vec<(u64, u64)> = if quick { vec![(500, 1500), (1200, 1200), (1500, 700)] } else { vec![(500, 1500), (1200, 1200), (1500, 700), (400, 2000), (2000, 2000), (2500, 800), (3000, 1000)] };
+        let mut set = tokio::task::JoinSet::new();
+        for (i, t) in grid {
+            set.spawn(async move { (i, t, client_level_case(i, t, 1).await) });
+        }
+        while let Some(Ok((i, t, mut r))) = set.join_next().await {
+            let rel = if t < i { "timeout_lt_interval" } else if t == i { "timeout_eq_interval" } else { "timeout_gt_interval" };
+            let case = json!({"kind": "c14-client", "interval_ms": i, "timeout_ms": t});
+            rep.case(Some(hash_str(&case.to_string())));
+            if matches!(&r, Ok((h, d)) if h.is_some() || d.is_some()) {
+                // real-time verdict: confirm alone with doubled times before reporting
+                rep.add("client_level_cases_retried_in_isolation", 1);
+                r = client_level_case(i, t, 2).await;
+            }
+            match r {
+                Err(e) => rep.inconclusive(format!("client-level case {i}/{t}: {e}")),
+                Ok((healthy, dead)) => {
+                    rep.add("client_level_sessions_watched", 1);
+                    if let Some(p) = healthy {
+                        rep.violate("liveness", &format!("client_level+healthy_peer+{rel}"), "healthy_session_closed", format!("session made by Client with check_interval {i} ms / idle_timeout {t} ms: {p}"), case.clone());
+                    } else if let Some(p) = dead {
+                        rep.violate("liveness", &format!("client_level+silent_peer+{rel}"), "dead_session_not_closed", format!("session made by Client with check_interval {i} ms / idle_timeout {t} ms: {p}"), case.clone());
+                    } else {
+                        rep.add("client_level_dead_sessions_seen_closing", 1);
+                    }
+                }
+            }
+        }
+        rep
+    });
+    for p in run::panic_log() {
+        if !run::is_harness_panic(&p) {
+            rep.violate("liveness", "client_level", "panic", p, json!({}));
+        }
+    }
+    run::case_end();
+    rep
 }
